@@ -3,8 +3,8 @@ package main
 import (
 	"fmt"
 	"go/constant"
-	"go/types"
 	"go/token"
+	"go/types"
 	"strings"
 
 	"golang.org/x/tools/go/ssa"
@@ -12,8 +12,8 @@ import (
 
 // functions of embedded/store that hand a held lock to their caller (released by the named counterpart)
 var storeReturnsHolding = map[string]string{
-	storeT + "fetchVLog:ImmuStore.singleVLogMu/W": "single value-log fast path: released by releaseVLog",
-	storeT + "fetchAnyVLog:ImmuStore.singleVLogMu/W": "single value-log fast path: released by releaseVLog",
+	storeT + "fetchVLog:ImmuStore.singleVLogMu/W":       "single value-log fast path: released by releaseVLog",
+	storeT + "fetchAnyVLog:ImmuStore.singleVLogMu/W":    "single value-log fast path: released by releaseVLog",
 	storeT + "fetchVLog:ImmuStore.commitStateRWMutex/W": "embedded values: the tx log is handed out under the commit-state lock; released by releaseVLog",
 }
 
@@ -159,7 +159,9 @@ func c14(c *Ctx) {
 	if f := c.mustFn(r, storeT+"readValueAt"); f != nil {
 		bar := anyEdge(
 			whenCond(true, func(a string) bool { return hasFieldSuffix(a, "embeddedValues") }),
-			whenCond(false, func(a string) bool { return strings.Contains(a, "decodeOffset(") && strings.Contains(a, ")#0") && strings.Contains(a, "const:0") && strings.Contains(a, " == ") }),
+			whenCond(false, func(a string) bool {
+				return strings.Contains(a, "decodeOffset(") && strings.Contains(a, ")#0") && strings.Contains(a, "const:0") && strings.Contains(a, " == ")
+			}),
 			whenCond(false, func(a string) bool { return strings.HasPrefix(a, "(const:0 < len(") }),
 		)
 		q := &pathQ{fn: f, fromEntry: true, to: callTo(storeT + "fetchVLog"), barrier: bar}
@@ -208,7 +210,9 @@ func isIfOn(b *ssa.BasicBlock, in ssa.Instruction) bool {
 func c09ValueDigest(c *Ctx, r string, f *ssa.Function) {
 	skip := whenCond(true, func(a string) bool { return a == "param:skipIntegrityCheck" })
 	lenEq := whenCond(true, func(a string) bool { return strings.Contains(a, "len(param:b)") && strings.Contains(a, " == ") })
-	dig := whenCond(true, func(a string) bool { return strings.Contains(a, "crypto/sha256.Sum256") && strings.Contains(a, "param:hvalue") && strings.Contains(a, " == ") })
+	dig := whenCond(true, func(a string) bool {
+		return strings.Contains(a, "crypto/sha256.Sum256") && strings.Contains(a, "param:hvalue") && strings.Contains(a, " == ")
+	})
 	for _, g := range []struct {
 		n string
 		e edgePred
@@ -267,7 +271,6 @@ func c14TruncateRules(c *Ctx, r string) {
 
 }
 
-
 // c14ExportBuffer: ExportTx reads every value into the shared scratch buffer ImmuStore._valBs under _valBsMux; the
 // bytes are still in that buffer when they are copied into the export, so the copy happens under the same lock
 // (another export may refill the buffer as soon as the lock is released).
@@ -307,7 +310,6 @@ func c14ExportBuffer(c *Ctx, r string) {
 	}
 	c.ruleHeldAt(r, f, "use of shared value buffer", uses, "ImmuStore._valBsMux", true, nil)
 }
-
 
 // c14TxHolders: read-transaction holders come from a bounded pool (MaxActiveTransactions / read pool size): every holder
 // taken with allocTx is given back on every path that leaves the function, error paths included; a leak on the
